@@ -221,6 +221,9 @@ def judge_bragg(ck, st, cr, K, H, E, dlib, dok, th, therr, thmsg=None):
         st['worst']['bragg'] = max(st['worst']['bragg'], float(e[m].max()))
     for k in np.nonzero((e > TOL) | badrange)[0][:2]:
         ck.violation('c13:Bragg_angle:braggs-law', '2 d sin(theta) = %r but lambda = %r (theta = %r)' % (2 * float(dlib[k]) * float(np.sin(th[k])), float(lam[k]), float(th[k])), wit(k))
+    # within rounding of the threshold either answer is right - but never a NaN without an error
+    for k in np.nonzero(usable & (cls < 0) & ~therr & ~np.isfinite(th))[0][:2]:
+        ck.violation('c13:Bragg_angle:no-reflection:nan', 'lambda = %r, 2d = %r (at the threshold): Bragg_angle returned %r without an error' % (float(lam[k]), 2 * float(dlib[k]), float(th[k])), wit(k))
     # no reflection -> an error (never NaN, never a number)
     m = cls == 0
     st['bragg_noreflection'] += int(m.sum())
@@ -476,7 +479,9 @@ def builtin_workload(ck, st, L, X, K, rng, tier):
         with np.errstate(divide='ignore', invalid='ignore'):
             Eth = np.where(np.isfinite(d) & (d > 0), K / (2 * d), 1.0)
         # 12 grid energies + the two sides of the reflection threshold of every chosen reflection
-        Ecol = np.concatenate([np.tile(Eg, (len(hi), 1)), (Eth * (1 - 1e-6))[:, None], (Eth * (1 + 1e-6))[:, None]], axis=1)
+        # 12 grid energies + both sides of the reflection threshold of every chosen reflection, from 1e-6 down to one ulp, and the threshold itself
+        Ecol = np.concatenate([np.tile(Eg, (len(hi), 1))] + [(Eth * f)[:, None] for f in (1 - 1e-6, 1 + 1e-6, 1 - 3e-7, 1 - 1e-9, 1 + 1e-9, 1 - 1e-12, 1.0)] +
+                              [np.nextafter(Eth, 0.0)[:, None], np.nextafter(Eth, np.inf)[:, None]], axis=1)
         bc.append(np.full(Ecol.size, c)); bh.append(np.repeat(hi, Ecol.shape[1])); bE.append(Ecol.ravel())
     bc, bh, bE = np.concatenate(bc), np.concatenate(bh), np.concatenate(bE)
     rb = sp('Bragg_angle', bc, [cube[bh, 0], cube[bh, 1], cube[bh, 2]], [bE])
